@@ -167,6 +167,25 @@ func gen(g *vh.Gen) {
 			g.Emit("scan", st, fmt.Sprint(p), strings.Join(parts, ";"), in, "-")
 		}
 	}
+	// a delivery overlapping the removal that empties its mailbox: it has looked the mailbox up before the
+	// scanner's RemoveMessage and takes the mailbox lock right after it; the fresh mail must be there afterwards
+	for i := 0; i < g.N(20, 600); i++ {
+		p := periods[1+g.Intn(len(periods)-1)]
+		mb := pool[g.Intn(len(pool))]
+		m := 1 + g.Intn(3)
+		var ages []string
+		for j := 0; j < m; j++ {
+			ages = append(ages, fmt.Sprint(age(g, p, true)))
+		}
+		b := vh.HS(mb) + ":" + strings.Join(ages, ",")
+		in := fmt.Sprintf("r%d/padd:%s", 1+g.Intn(m), vh.HS(mb))
+		if g.Chance(0.3) {
+			in += fmt.Sprintf(",r%d/add:%s", 1+g.Intn(m), vh.HS(mb))
+		}
+		for _, st := range []string{"mem", "file"} {
+			g.Emit("scan", st, fmt.Sprint(p), b, in, "-")
+		}
+	}
 	// cancellation at a callback boundary (with and without interference)
 	for i := 0; i < g.N(15, 250); i++ {
 		p := periods[1+g.Intn(len(periods)-1)]
